@@ -8,7 +8,7 @@ import math
 import numpy as np
 
 DIM_NAMES = ["x", "y", "z", "t", "u", "v"]
-ODD_DIM_NAMES = ["x0", "X", "lat lon", "\u00e9", "xx", "time.1"]   # legal, comma-free, unusual: default-style, upper case, space, non-ASCII, prefix of another, dot
+ODD_DIM_NAMES = ["x0", " ", "lat lon", "\u00e9", "X", "time.1", "xx"]   # legal, comma-free, unusual: default-style, upper case, space, non-ASCII, prefix of another, dot
 STR_LABELS = ["a", "b", "c", "d", "e", "f", "g", "h"]
 INT_LABELS = list(range(-2, 11))
 FLOAT_LABELS = [k + 0.5 for k in range(-2, 11)] + [3.0, 8.0]     # two whole numbers: 3.0 meets the integer label 3 in joins
